@@ -372,7 +372,12 @@ class SInt:
         return cur().decide(self.e != 0)
 
     def __index__(self):
-        raise Escape("symbolic int used where a concrete index is required")
+        # C boundary (numpy, range, list index): concretise by forking over the explorer's declared index range
+        ex = cur()
+        rng = getattr(ex, "index_range", None)
+        if rng is None:
+            raise Escape("symbolic int used where a concrete index is required")
+        return ex.choose(self.e, rng)
 
     __int__ = None
 
